@@ -20,7 +20,8 @@ from sim import entry, kernel, spies
 ID = 'C09'
 BATCH = True
 RULE = ('seeded choice of a container family (14 hint shapes x 1-3 stub container kinds), an item hint (leaf, optional, '
-        'nested container with stub inner containers), conforming / all-items-violating / one-bad content, and a draw set; '
+        'nested container with stub inner containers), conforming / all-items-violating / one-bad content, optionally wrapped so that the '
+        'culprit lies beside or above a conforming container (tuple[H, str], Annotated[H, failing validator]), and a draw set; '
         'the same case is executed for every size of the sweep and the per-method call counts are compared. Non-trivial = '
         'sizes >= 1000 were reached and a rejection was explained; distinct = distinct (family, item hint, content kind, conf)')
 INTERLEAVING_MEASURE = 'distinct (family, item hint, content, configuration) cases; each is a full size sweep'
@@ -33,7 +34,7 @@ ASSUMPTIONS = ['the property\'s parenthesis "one repr()" is read as: repr-ing th
                'size; the check asserts a size-independent count of at most two repr() calls per rejection (message prefix + culprit stand-in)',
                'dictionary views (KeysView/ValuesView/ItemsView) are C objects that cannot be instrumented and are not swept',
                'wall time is not asserted']
-PROBES = ['sweeps', 'big_sizes_reached', 'reject_explained', 'nested_inner_reached', 'noncollection_iterables', 'mapping_sweeps']
+PROBES = ['sweeps', 'big_sizes_reached', 'reject_explained', 'nested_inner_reached', 'noncollection_iterables', 'mapping_sweeps', 'wrapped_sweeps']
 
 SIZES_QUICK = [0, 1, 2, 3, 10, 1000]
 SIZES_THOROUGH = [0, 1, 2, 3, 10, 1000, 100000]
@@ -80,7 +81,12 @@ def generate(rng, run, tier):
     content = rng.choice(['good', 'good', 'allbad', 'allbad', 'onebad'])
     conf = entry.gen_conf(rng, allow_tower=False)
     conf.pop('strategy', None)      # the property speaks about the default constant-time strategy only
-    return {'fam': fam, 'kind': kind, 'item': item, 'content': content, 'conf': conf,
+    # the container may also sit *inside* the rejected object while the culprit is elsewhere: the explanation path then walks
+    # past a conforming container of any size (tuple[H, str] with a bad second item; Annotated[H, Is[always false]])
+    wrap = rng.choice([None, None, None, 'tuple_bad', 'annot_fail', 'tuple_bad_first'])
+    if wrap:
+        content = 'good'
+    return {'fam': fam, 'kind': kind, 'item': item, 'content': content, 'conf': conf, 'wrap': wrap,
             'draws': [0, 1, 2 ** 32 - 1, rng.getrandbits(32)], 'bad_at': rng.random(), 'tier': tier,
             'big': rng.random() < 0.03}
 
@@ -161,12 +167,39 @@ def build_hint(case):
     return f(t)
 
 
+def _always_false(x):
+    return False
+
+
+def _wrap_hint(case, hint):
+    w = case.get('wrap')
+    if w == 'tuple_bad':
+        return tuple[hint, str]
+    if w == 'tuple_bad_first':
+        return tuple[str, hint]
+    if w == 'annot_fail':
+        from beartype.vale import Is
+        return typing.Annotated[hint, Is[_always_false]]
+    return hint
+
+
+def _wrap_obj(case, x):
+    w = case.get('wrap')
+    if w == 'tuple_bad':
+        return (x, 0xBAD)
+    if w == 'tuple_bad_first':
+        return (0xBAD, x)
+    return x
+
+
 def execute(case):
     from sim import boot
     boot.SAMPLER.reset()
     probes = {k: 0 for k in PROBES}
     probes['sweeps'] = 1
-    hint = build_hint(case)
+    hint = _wrap_hint(case, build_hint(case))
+    if case.get('wrap'):
+        probes['wrapped_sweeps'] = 1
     mapping = FAMILIES[case['fam']][2]
     if mapping:
         probes['mapping_sweeps'] = 1
@@ -186,7 +219,7 @@ def execute(case):
         for draw in case['draws']:
             for ep in entry.ENTRY_POINTS:
                 x, inner = build(case, n)
-                out = prep.eval(ep, x, draw)
+                out = prep.eval(ep, _wrap_obj(case, x), draw)
                 verdict = entry.classify(out, prep.conf)
                 if verdict == 'error':
                     e = out['exc_obj']
@@ -230,7 +263,9 @@ def execute(case):
                 if verdict == 'accept' and reprs:
                     viol = ('repr_on_accept', 'n=%d %s: repr() called %d times although the object was accepted' % (n, ep, reprs), 'repr_accept')
                     break
-                if log['__repr__'] > 2:
+                if log['__repr__'] > (2 if not case.get('wrap') else 6):
+                    # (wrapped: the container is described as part of the rejected object and again as a conforming part; the
+                    # number of repr() calls must still be a small constant, and identical across sizes - checked below)
                     viol = ('repr_count', 'n=%d %s: repr() of the rejected object called %d times' % (n, ep, log['__repr__']), 'repr_count')
                     break
                 if n >= 1:
@@ -261,7 +296,7 @@ def execute(case):
 
 
 def _out(case, probes, viol):
-    out = {'digest': kernel.stable_hash([case['fam'], case['kind'], case['item'], case['content'], case['conf']]),
+    out = {'digest': kernel.stable_hash([case['fam'], case['kind'], case['item'], case['content'], case['conf'], case.get('wrap')]),
            'nontrivial': bool(probes['big_sizes_reached'] and probes['reject_explained']), 'probes': probes,
            'stats': {'sweeps': probes['sweeps']}, 'violation': None}
     if viol:
@@ -283,4 +318,4 @@ SIGNATURES = {}
 
 
 def describe(case):
-    return {k: case[k] for k in ('fam', 'kind', 'item', 'content', 'conf', 'draws')}
+    return {k: case.get(k) for k in ('fam', 'kind', 'item', 'content', 'conf', 'draws', 'wrap')}
